@@ -255,7 +255,19 @@ func asString(t iterator, v interface{}) string {
 		}
 		return "false"
 	case float64:
-		return strconv.FormatFloat(v, 'g', -1, 64)
+		// XPath prints numbers in plain decimal notation, without exponent,
+		// and has a single zero.
+		switch {
+		case math.IsNaN(v):
+			return "NaN"
+		case math.IsInf(v, 1):
+			return "Infinity"
+		case math.IsInf(v, -1):
+			return "-Infinity"
+		case v == 0:
+			return "0"
+		}
+		return strconv.FormatFloat(v, 'f', -1, 64)
 	case string:
 		return v
 	case query:
